@@ -95,6 +95,9 @@ def enc_program(le, p, lstr_offs=None, str_offs=None, sup_offs=None):
         for (name, di, mt, ln) in p['files']:
             h += bytes(name) + b'\0' + uleb(di) + uleb(mt) + uleb(ln)
         h += b'\0'
+    # bytes that header_length still covers behind the tables: the field exists so that a consumer finds the first opcode whatever a
+    # producer put (or a later version of the format puts) behind the fields it knows (DWARF 6.2.4, header_length)
+    h += bytes(p.get('hdr_slack', b''))
     body = enc_ops(le, A, p['opcode_base'], std_lengths, p['ops'])
     pre = u(le, 2, ver)
     if ver >= 5:
